@@ -305,7 +305,7 @@ class Tr:
 
     COQTY = {"nat": "nat", "bool": "bool", "key": "K", "val": "V", "optval": "option V", "allow": "allow", "peek": "bool",
              "liter": "iter", "mit": "option K", "eref": "nat", "unit": "unit", "kvrange": "list (K * V)", "krange": "list K",
-             "fillrange": "list (K * option V)", "outvec": "list (K * option V)", "time": "Z", "dur": "Z"}
+             "fillrange": "list (K * option V)", "outvec": "list (K * option V)", "time": "Z", "dur": "Z", "durms": "Z"}
 
     # ---- expressions: returns (list of bind lines, term, kind); may update the state name
     def E(self, c, st, env):
@@ -875,7 +875,7 @@ class Tr:
             if d is None or d["k"] != "int":
                 raise Unsupported("default member initialiser of %s" % member)
             F[coq] = str(d["n"])
-        elif kind == "durms" and c["k"] == "ref" and c["n"] in env and env[c["n"]][1] == "dur":
+        elif kind == "durms" and c["k"] == "ref" and c["n"] in env and env[c["n"]][1] in ("dur", "durms"):
             F[coq] = env[c["n"]][0]
         else:
             raise Unsupported("member initialiser %s(%s)" % (member, show(c)[:120]))
